@@ -1412,6 +1412,25 @@ class Dyn(Calls):
                 return self.loop(loop2, loop2.target, keys, ordinal=ordinal)
         return super().st_For(s)
 
+    def coerce(self, v, ty):
+        """An opaque object passed where the callee's contract declares a str parameter: its string value when it is a string; a feasible
+        non-string argument is outside what the callee's contract describes."""
+        if ty is TStr and isinstance(v, VObj) and not self.spec_mode:
+            self.dyn_facts(v.t)
+            if not self.branch(kind_of(v.t) == K_STR):
+                raise Unsupported("a value that may not be a string is passed for a str parameter of a function applied by contract")
+            return VStr(z3.Function("unbox_str", ObjSort, z3.StringSort())(v.t))
+        return super().coerce(v, ty)
+
+    def iter_view(self, it):
+        """for x in <opaque collection object>: the object's own iteration (a sequence view whose length and items are functions of the object);
+        iterating None raises TypeError."""
+        if isinstance(it, VObj) and not self.spec_mode and (self.st.ghost.get("$boxed") or {}).get(z3.simplify(it.t).get_id()) is None:
+            if not self.branch(it.t != PyNone):
+                raise PyRaise(VExc("TypeError", [VStr("'NoneType' object is not iterable")]))
+            return self.obj_as_list(it)
+        return it
+
     # ------------------------------------------------------------------ sorted(), list(set), set.update(keys)
     def bi_sorted(self, args, kwargs, node):
         """sorted(c) of a duplicate-free collection of strings (set, dict keys, duplicate-free list): a duplicate-free list with the same
